@@ -104,8 +104,13 @@ REV_DIAG = (1, 1, -1, -1)         # axial stress, shear, bending moment, top fib
 
 
 def compare(oA, oB, tr, tolU, what, max_fails=4, check_diagrams=True):
-    """Returns failure strings. tolU: displacement tolerance (already combined for both runs)."""
+    """Returns failure strings. tolU: displacement tolerance (already combined for both runs); a pair
+    (translations, rotations) when the two differ (a change of the length unit scales the first, not the second)."""
     fails = []
+    tolR = tolU[1] if isinstance(tolU, tuple) else tolU
+    tolU = tolU[0] if isinstance(tolU, tuple) else tolU
+    tol3 = (tolU, tolU, tolR)
+    tolmax = max(tolU, tolR)
     solA = {sb["ID"]: sb for sb in oA["Sol"]}
     solB = {sb["ID"]: sb for sb in oB["Sol"]}
     ampB = amplification(oB)
@@ -124,7 +129,7 @@ def compare(oA, oB, tr, tolU, what, max_fails=4, check_diagrams=True):
         got = [F(v) for v in RB[kb]]
         scale = sum(abs(x) for x in exp) + sum(abs(x) for x in got)
         for c in range(3):
-            tol = 4 * ampmax * tolU * (1 + (ext if c == 2 else 0)) + Fr(1, 10 ** 8) * scale
+            tol = 4 * ampmax * tolmax * (1 + (ext if c == 2 else 0)) + Fr(1, 10 ** 8) * scale
             if abs(got[c] - exp[c]) > tol:
                 fails.append("%s: reaction %s of node %s is %.9g, expected %.9g" % (what, ("fx", "fy", "mz")[c], kb, float(got[c]), float(exp[c])))
     # bars
@@ -151,14 +156,14 @@ def compare(oA, oB, tr, tolU, what, max_fails=4, check_diagrams=True):
             exp = tr.disp(va[0], va[1], va[2])
             scale = sum(abs(x) for x in exp)
             for c in range(3):
-                if abs(vb[c][0] - exp[c]) > tolU + Fr(1, 10 ** 8) * scale:
+                if abs(vb[c][0] - exp[c]) > tol3[c] + Fr(1, 10 ** 8) * (abs(exp[c]) if c == 2 else scale):
                     fails.append("%s: bar %s t=%s global %s is %.10g, expected %.10g (tolerance %.3g)" % (
-                        what, idb, float(tb), ("dx", "dy", "rz")[c], float(vb[c][0]), float(exp[c]), float(tolU)))
+                        what, idb, float(tb), ("dx", "dy", "rz")[c], float(vb[c][0]), float(exp[c]), float(tol3[c])))
             la = [at(s, t)[0] for s in lA]
             lb = [at(s, tb)[0] for s in lB]
             lf = [a * b for a, b in zip(tr.lfac, REV_LOCAL if rev else (1, 1, 1))]
             for c in range(3):
-                if abs(lb[c] - lf[c] * la[c]) > tolU * (1 + abs(lf[c])) + Fr(1, 10 ** 8) * abs(la[c] * lf[c]):
+                if abs(lb[c] - lf[c] * la[c]) > tol3[c] * (1 + abs(lf[c])) + Fr(1, 10 ** 8) * abs(la[c] * lf[c]):
                     fails.append("%s: bar %s t=%s local %s is %.10g, expected %.10g" % (
                         what, idb, float(tb), ("dx", "dy", "rz")[c], float(lb[c]), float(lf[c] * la[c])))
             if len(fails) >= max_fails:
@@ -177,7 +182,7 @@ def compare(oA, oB, tr, tolU, what, max_fails=4, check_diagrams=True):
                 if vb is None:
                     continue
                 el, er = (fac * l, fac * r) if not rev else (fac * r, fac * l)
-                tol = (2 * ampB[idb] * tolU) / div + 2 * F(oB["MaxError"]) / div
+                tol = (2 * ampB[idb] * tolmax) / div + 2 * F(oB["MaxError"]) / div
                 scale = abs(el) + abs(er)
                 if abs(vb[0] - el) > tol + Fr(1, 10 ** 8) * scale or abs(vb[1] - er) > tol + Fr(1, 10 ** 8) * scale:
                     fails.append("%s: bar %s %s at t=%s is (%.9g | %.9g), expected (%.9g | %.9g)" % (
